@@ -8,7 +8,8 @@
     theorems of Props/C08_dt.v are stated -- compute exactly what the readers of
     spyne/protocol/_inbase.py compute when written over the generic matcher and these ASTs, for
     ALL input strings. *)
-From SpyneV Require Import C08.Regex C08.RegexProofs C08.RegexRef C08.RegexDt C08.RegexTie C08.DtModel Gen.Regexes.
+From SpyneV Require Import C08.Regex C08.RegexProofs C08.RegexRef C08.RegexDt C08.RegexTie C08.DtModel C08.DurModel
+                           C08.RegexDurRef Gen.Regexes.
 
 (** DATE_PATTERN, TIME_PATTERN, OFFSET_PATTERN as prefix scanners *)
 Theorem C08_re_scan_date : forall s, scan_date s = rx_scan_date rx_DATE_PATTERN s.
@@ -38,6 +39,12 @@ Proof. exact date_reader_gen. Qed.
 (** time_from_unicode over _time_re *)
 Theorem C08_re_time_reader : forall s, time_from_unicode_rx rx_inbase_time s = time_from_unicode s.
 Proof. exact time_reader_gen. Qed.
+
+(** duration_from_unicode over _duration_re: the optional groups of the pattern never need
+    backtracking, the hand-written scanner of C08/DurModel.v takes the same decisions *)
+Theorem C08_re_duration_reader : forall s,
+  duration_from_unicode_rx rx_inbase_duration s = duration_from_unicode s.
+Proof. exact duration_reader_gen. Qed.
 
 (** DATETIME_PATTERN is the concatenation the source writes *)
 Theorem C08_re_datetime_pattern_composed : forall s e,
@@ -80,6 +87,11 @@ Proof. vm_compute. auto. Qed.
 Example C08_re_ex_time_reader :
   time_from_unicode_rx rx_inbase_time [49;50;58;51;52;58;53;54;46;53] = Ok (mktod 12 34 56 500000).
 Proof. vm_compute. reflexivity. Qed.
+Example C08_re_ex_duration :
+  duration_from_unicode_rx rx_inbase_duration [45;80;49;68;84;50;72;51;77;52;46;53;83] = Ok (-93784500000)
+  /\ duration_from_unicode_rx rx_inbase_duration [80;49;77;84] = Ok 2592000000000
+  /\ duration_from_unicode_rx rx_inbase_duration [80;49;72] = VFault.
+Proof. vm_compute. auto. Qed.
 Example C08_re_ex_generic :
   (* (a|ab)(c|bcd)(d* ) on "abcd": the backtracking order of the alternatives decides *)
   let a := RChar (mkcset false [CRange 97 97]) in let b := RChar (mkcset false [CRange 98 98]) in
